@@ -178,7 +178,7 @@ var _ = strings.Contains
 
 const c03Rule = "rapid-generated cooperative scripts: request metadata (NewOutgoingContext + AppendToOutgoingContext), handler orders over SetHeader/SendHeader/SendMsg/SetTrailer/return ok|err, client Header() before/between/after receives, 0..3 grpc.Header and grpc.Trailer options, on inproc, httpgrpc.Server, HandleServices; " +
 	"oracle = per-key ordered merge model (cross-checked on grpc-go when the SUT deviates): handler sees all request pairs, Header()/Trailer()/every option target contain all merged pairs, late SetHeader/SendHeader fail; " +
-	"also generated since the seeded rounds: 2..3 calls in a row on one channel with the handler reusing its metadata objects (every call must look like the first), caller-side mutation of attached maps, protocol-named handler metadata, wrapped status outcomes; " +
+	"also generated since the seeded rounds: 2..3 calls in a row on one channel with the handler reusing its metadata objects (every call must look like the first), protocol-named handler metadata, caller deadlines, chunked replies, the per-method HTTP server form; " +
 	"non-trivial = a -bin value with a non-printable byte, or a key with >=2 values (incl. merged from several calls), or >=2 call options of one kind; distinct by case hash"
 
 func TestC03(t *testing.T) {
